@@ -632,8 +632,27 @@ def _predicate_body(fdef, args):
   import copy
   body = [x for x in fdef.body if not (isinstance(x, ast.Expr) and
                                        isinstance(x.value, ast.Constant))]
-  if len(body) != 1 or not isinstance(body[0], ast.Return) or body[0].value is None:
+  def fold(stmts):
+    # if/return chains read as one boolean expression:
+    #   if c: return A      ==>   (c and A) or (not c and <rest>)
+    #   <rest>
+    if not stmts:
+      return ast.Constant(value=None)
+    st = stmts[0]
+    if isinstance(st, ast.Return):
+      return st.value if st.value is not None else ast.Constant(value=None)
+    if isinstance(st, ast.If):
+      a, b = fold(st.body + stmts[1:]), fold(st.orelse + stmts[1:])
+      if a is None or b is None:
+        return None
+      return ast.BoolOp(op=ast.Or(), values=[
+        ast.BoolOp(op=ast.And(), values=[st.test, a]),
+        ast.BoolOp(op=ast.And(), values=[ast.UnaryOp(op=ast.Not(), operand=st.test), b])])
     return None
+  folded = fold(body)
+  if folded is None:
+    return None
+  body = [ast.Return(value=folded)]
   params = [a.arg for a in fdef.args.args]
   if len(args) != len(params) or not all(isinstance(a, (ast.Name, ast.Constant)) for a in args):
     return None
